@@ -343,6 +343,41 @@ def clause_variable(specs, avail, b_generated, out):
     return None
 
 
+def clause_variable_symmetric(specs, vertical, avail, b_generated, res):
+    """css-page-3 §5.3.2: a generated centre box is resolved against the imaginary box "AC", twice the larger of its
+    two neighbours (min- and max-content contributions alike): exchanging A and C must leave B's size unchanged and
+    exchange the sizes of A and C."""
+    if not b_generated or isinstance(res, str):
+        return None
+    swapped = docs.outcome(lambda: impl_variable([specs[2], specs[1], specs[0]], vertical, avail, b_generated))
+    if isinstance(swapped, str):
+        return f'compute_variable_dimension raised {swapped} with the two outer boxes exchanged'
+    if swapped[1][0] != res[1][0]:
+        return (f'centre box resolved to {res[1][0]} but to {swapped[1][0]} when its neighbours A and C are exchanged '
+                f'(it is sized against 2 x the larger neighbour, whichever side that is): avail {avail}, '
+                f'A/B/C (inner, margins, min-content, max-content) = '
+                f'{[(str(sp[0]), str(sp[1]), str(sp[2]), str(sp[4]), str(sp[5])) for sp in specs]}')
+    if (swapped[0][0], swapped[2][0]) != (res[2][0], res[0][0]):
+        return (f'outer boxes resolved to {res[0][0]}, {res[2][0]} but to {swapped[2][0]}, {swapped[0][0]} when exchanged '
+                f'(avail {avail})')
+    return None
+
+
+# fixed family run first in `variable-dimension`: a generated auto centre box between a narrow box and a wide box with
+# wrappable content, at available sizes in each of the three flex-fit branches, the wide box on either side
+def fixed_variable_family():
+    Z = [F(0)] * 4
+    narrow, wide, centre = (AUTO, F(0), F(0), Z, F(10), F(20)), (AUTO, F(0), F(0), Z, F(10), F(100)), \
+        (AUTO, F(0), F(0), Z, F(10), F(40))
+    given = (F(30), F(2), F(1), Z, F(5), F(60))
+    out = []
+    for avail in (F(400), F(150), F(90), F(40), F(20)):
+        for a, c in ((narrow, wide), (wide, narrow), (given, wide), (wide, given)):
+            for vertical in (False, True):
+                out.append(([a, centre, c], vertical, avail, True))
+    return out
+
+
 class C14(PropCheck):
     id = 'C14'
     extractors = (margin_boxes.generate, page_sizes.generate)
@@ -487,6 +522,17 @@ class C14(PropCheck):
             'non-trivial = a flex-fit branch runs (two autos or auto B)')
         snap = g.Snap()
         vertical_cases = []
+        for specs, vertical, avail, b_generated in fixed_variable_family():
+            wire = [[sp[0], sp[1], sp[2], sum(sp[3]), sp[4], sp[5]] for sp in specs]
+            line = sx.line('variable', vertical, avail, b_generated, *wire)
+            meta = {'fn': 'variable', 'args': [specs, vertical, avail, b_generated]}
+            res = docs.outcome(lambda: impl_variable(specs, vertical, avail, b_generated))
+            tags = ['vertical' if vertical else 'horizontal', 'B', 'fixed-family']
+            if vertical:
+                vertical_cases.append((line, res, meta, True, tags))
+            else:
+                out = res if isinstance(res, str) else ' '.join('(' + show3(*r) + ')' for r in res)
+                sec.add(line, out, meta=meta, nontrivial=True, tags=tags)
         for i in range(run.n(5000, 80000)):
             vertical = i % 5 == 4
             b_generated = rng.random() < 0.6
@@ -807,7 +853,8 @@ class C14(PropCheck):
                 if vertical:                    # VerticalBox: content sizes are the constants 0 and 1e6
                     specs = [(sp[0], sp[1], sp[2], sp[3], 0, 10 ** 6) for sp in specs]
                 res = impl_variable(specs, vertical, avail, b_generated) if not impl.startswith('err:') else impl
-                return clause_variable(specs, avail, b_generated, res)
+                return clause_variable(specs, avail, b_generated, res) or clause_variable_symmetric(
+                    specs, vertical, avail, b_generated, res)
             if fn == 'initside':
                 brk, ltr = args
                 want = {'right': True, 'left': False, 'recto': ltr, 'verso': not ltr}.get(brk, ltr)
